@@ -206,13 +206,13 @@ ALSO = {
     "C13": "exact fractions in formulas; global parameters called t / volume; module-level state between imports as a suspicion decided by a 240-document batch replay; species carrying both initialAmount and initialConcentration (second attribute written into the document text), hasOnlySubstanceUnits both ways",
     "C14": "programs whose reaction shares its parameter dictionary with an earlier one; delayed mass-action reactions (three families, repeated reactants); exported parameter values equal the model's to the last digit",
     "C16": "a second interface over the same prior dictionary object (the caller's dictionary is left unchanged); prior dictionary ordered differently from the parameter vector",
-    "C17": "records with one daughter in either slot; models copied while edited after their last initialisation; lineage models with every kind of lineage rule / event copied before and after initialisation (same-seed behaviour); Schnitz objects with a mother outside the pickled set",
+    "C17": "cell states with divided != dead (flags read from the state tuple in the replay); records with one daughter in either slot; models copied while edited after their last initialisation; lineage models with every kind of lineage rule / event copied before and after initialisation (same-seed behaviour); Schnitz objects with a mother outside the pickled set",
     "C18": "dimerisation model and a model over species E / parameters N, I in the real-model job; large parameter values; the public wrappers as functions of the model's current parameters (query, set_params, query); a real model through the real interface with a net rate of either sign",
     "C19": "the simulator object reused for several lineage simulations; general splitter with an explicit binomial key; division in the last grid interval; lineage queue step with an abstract single-cell simulation",
     "C20": "reads into a reused buffer with prior contents; constructor at an arbitrary current time; copy followed by an operation on one of the two queues; re-timing keeps pending entries at their distance",
-    "C05": "array_sum and sample_discrete over up to 33 (thorough: 129) symbolic propensities as a job of their own",
+    "C05": "the public entry point on a grid with a start offset: the simulation clock stays at the interface's initial time; array_sum and sample_discrete over up to 33 (thorough: 129) symbolic propensities as a job of their own",
     "C09": "decay-to-exhaustion scenarios; accumulator (self-referential additive) rules; rules given to the constructor with their default frequency",
-    "C15": "measurement order different from the frame's column order (frame model with columns / loc); the uniform prior's closed support (replay at its ends)",
+    "C15": "a list of per-trajectory conditions with an empty entry; measurement order different from the frame's column order (frame model with columns / loc); the uniform prior's closed support (replay at its ends)",
 }
 
 
